@@ -13,5 +13,6 @@ CONSTANTS
   Bounded = TRUE
   AllowDirect = TRUE
   AllowAbort = FALSE
+  MaxLeft = 1
 INVARIANTS RedirectExactly RecordTruth NoRecordOtherwise AgentUntouched NoStaleLocal WithinCapacity
 CHECK_DEADLOCK TRUE
